@@ -18,7 +18,7 @@ struct Entry { file: usize, filter: Option<(bool, Vec<String>)> } // (true = `~`
 #[derive(Clone, Debug, Serialize, Deserialize)]
 struct Tag { name: String, from: Option<String>, alias: bool, words: Vec<usize>, entries: Vec<Entry> }
 #[derive(Clone, Debug, Serialize, Deserialize)]
-struct Project { rule_files: Vec<Vec<Group>>, word_files: Vec<Vec<(String, Option<String>)>>, into: Vec<String>, tags: Vec<Tag>, expect_reject: Option<String> }
+struct Project { rule_files: Vec<Vec<Group>>, word_files: Vec<Vec<(String, Option<String>)>>, into: Vec<String>, tags: Vec<Tag>, expect_reject: Option<String>, #[serde(default)] order: Vec<usize> }
 
 const GNAMES: &[&str] = &["Grimms Law", "Verner", "a-mutation", "Final Devoicing", "Umlaut (i)", "Nasal loss 2", "Lenition", "Hap(lo)logy", "Cluster Simplification", "Syncope"];
 
@@ -41,7 +41,7 @@ fn gen_project(t: &mut Tape) -> Project {
         for _ in 0..ng { let nr = 1 + t.pick(2); groups.push((GNAMES[ni % GNAMES.len()].to_string(), (0..nr).map(|_| simple_rule(t, &segs)).collect(), if t.chance(1, 2) { vec!["a description".to_string()] } else { vec![] })); ni += 1; }
         rule_files.push(groups);
     }
-    let ntags = 1 + t.weighted(&[2, 4, 3, 2]);
+    let ntags = 1 + t.weighted(&[2, 4, 3, 3, 1]);
     let mut tags: Vec<Tag> = vec![];
     let into = if t.chance(1, 3) { vec!["Я > a".to_string(), "Ж, Ш > ʃ, s:[+long]".to_string()] } else { vec![] };
     for i in 0..ntags {
@@ -74,12 +74,16 @@ fn gen_project(t: &mut Tape) -> Project {
             _ => { let i = t.pick(tags.len()); tags[i].from = Some("nosuchtag".into()); Some("dangling reference".to_string()) }
         }
     } else { None };
-    Project { rule_files, word_files, into, tags, expect_reject }
+    // the order in which the tags are declared in the config file is irrelevant to their meaning: children may come before parents
+    let mut order: Vec<usize> = (0..tags.len()).collect();
+    if t.chance(1, 2) { for i in (1..order.len()).rev() { let j = t.pick(i + 1); order.swap(i, j); } }
+    Project { rule_files, word_files, into, tags, expect_reject, order }
 }
 
 fn config_text(p: &Project) -> String {
     let mut s = String::from("# generated config\n");
-    for tg in &p.tags {
+    let order: Vec<usize> = if p.order.len() == p.tags.len() { p.order.clone() } else { (0..p.tags.len()).collect() };
+    for tg in order.iter().map(|i| &p.tags[*i]) {
         s.push_str(&format!("@{}", tg.name));
         if let Some(f) = &tg.from { s.push_str(&format!(" %{f}")); }
         if tg.alias { s.push_str(" $root"); }
@@ -121,7 +125,7 @@ fn nonempty(v: &[String]) -> Vec<String> { v.iter().filter(|l| !l.trim().is_empt
 impl Property for C20 {
     fn id(&self) -> &'static str { "C20" }
     fn rule(&self) -> String {
-        "Generated project trees written to a fresh directory: 1-3 word files, 1-4 rule files (2-4 named groups each), 1-4 tags linked by `%` references into chains and forks (a referencing tag may add a word file), 1-3 rule-file entries per tag with random `!` / `~` filters whose names are written in mixed case, in a third of the cases a deromaniser-only alias on the root tag (fresh strings, used by one extra word); one config in six is made invalid (self-loop, 2-cycle, 3-cycle, dangling reference). \
+        "Generated project trees written to a fresh directory: 1-3 word files, 1-4 rule files (2-4 named groups each), 1-4 tags (up to 5 in the thorough tier) linked by `%` references into chains and forks and declared in a random order (children before parents in half of the cases) (a referencing tag may add a word file), 1-3 rule-file entries per tag with random `!` / `~` filters whose names are written in mixed case, in a third of the cases a deromaniser-only alias on the root tag (fresh strings, used by one extra word); one config in six is made invalid (self-loop, 2-cycle, 3-cycle, dangling reference). \
          Oracle: after `asca seq DIR -o -y` (all tags) and `asca seq DIR -t T -o -y` (fresh copy), the single file under out/<tag>/ equals, as a sequence of non-empty lines, the harness's own composition: start words = final words of the referenced tag (+ word files) or the word files; each entry = the file's groups filtered (`!` removes exactly the named groups, `~` keeps exactly the named ones in the order named, case-insensitively) applied with asca::run; \
          `conv tag T -r` exports JSON whose rules/words, run through asca::run, give the same words when no word file is added along the chain; an invalid config makes the binary exit non-zero without a crash signal within 30 s (timeout = exit 2, never a violation). \
          Non-trivial: ≥2 tags linked by `%`, ≥1 filter that changes the group list, ≥1 word changed. Quick 6000 trees, thorough 60000.".into()
